@@ -1185,6 +1185,32 @@ impl hyper::service::Service<Request<Incoming>> for CaptivePortalService {
     }
 }
 
+/// Verification entry points for the captive-portal endpoint (see `crate::verif::c13`).
+#[cfg(iroh_verif)]
+pub(crate) mod verif_captive_portal {
+    use super::*;
+
+    /// Calls the real `serve_no_content_handler` the way both routes do.
+    pub(crate) fn serve_no_content<B: hyper::body::Body>(
+        r: Request<B>,
+    ) -> HyperResult<Response<BytesBody>> {
+        serve_no_content_handler(r, Response::builder())
+    }
+
+    /// Serves the real `CaptivePortalService` on one in-memory connection, exactly like the
+    /// accept loop of `run_captive_portal_service` does for a TCP stream.
+    pub(crate) async fn serve_conn<IO>(io: IO) -> Result<(), hyper::Error>
+    where
+        IO: tokio::io::AsyncRead + tokio::io::AsyncWrite + Unpin + Send + 'static,
+    {
+        let stream = hyper_util::rt::TokioIo::new(io);
+        hyper::server::conn::http1::Builder::new()
+            .serve_connection(stream, CaptivePortalService)
+            .with_upgrades()
+            .await
+    }
+}
+
 #[cfg(test)]
 mod tests {
     use std::{net::Ipv4Addr, sync::Arc, time::Duration};
